@@ -15,7 +15,8 @@ Result (`C06_ledger`): along every run from a new decoder with budget `L`,
 `held d ≤ 2·(CHUNK_BUFFER_SIZE + (L − d.limit)) + 6 ≤ 2·L + 2·CHUNK_BUFFER_SIZE + 6` — slope `a = 2`, constant
 `c = 2·32768 + 6`, produced by the proof: every paid byte is charged once (slope 1), and the only unpaid
 copies are one eXIf body (≤ the chunk buffer, which itself is ≤ `CHUNK_BUFFER_SIZE` + what was charged)
-and one bKGD body (≤ 6 bytes).  The sizes are LOGICAL (bytes of the stored fields): the representation
+and one bKGD body (≤ 6 bytes).  Every statement is for every chunk body, the empty one included (since f31d047 empty
+chunks are parsed too: they charge and store 0 bytes).  The sizes are LOGICAL (bytes of the stored fields): the representation
 factor of the real crate (Latin-1 text decoded to UTF-8: ≤ 2×; `Vec`/struct overhead per text chunk;
 allocator rounding) is outside the model and measured by the harness.
 -/
